@@ -128,6 +128,10 @@ pub struct AgentScenario {
     pub ending: Ending,
     /// After the ending, start a new agent instance on the same store and sync every lane.
     pub restart: bool,
+    /// The k-th read (get_value / read_map) of the restarted instance fails: the restart may fail, but an item
+    /// must never come back with its default while the store holds a value for it.
+    #[serde(default, skip_serializing_if = "Option::is_none")]
+    pub restart_read_fault: Option<u64>,
     pub max_steps: u64,
     /// Run the scripted agent of W-FAKEAGENT (value lanes val / tval only) instead of the real agent model.
     #[serde(default)]
@@ -426,6 +430,10 @@ pub fn generate(seed: u64, focus: &str, _tier: Tier) -> AgentScenario {
         fake,
         focus: focus.to_string(),
         restart: knobs.persistent && (focus == "C05" || g.rng.chance(1, 4)),
+        restart_read_fault: {
+            let mut fr = root.sub("restart-read-fault");
+            if focus == "C05" && knobs.persistent && fr.chance(1, 6) { Some(fr.range(0, 8)) } else { None }
+        },
         knobs,
         peers,
         store_fault,
@@ -492,7 +500,13 @@ fn gen_op(g: &mut Gen, mix: &Mix, key_pool: i32, ops: &mut Vec<Op>, linked: &mut
                     ops.push(Op::Cmd { lane: lane.to_string(), body: format!("@update(key:{k}) {v}") });
                 }
             }
-            7..=9 => {
+            9 => {
+                // transform_entry: insert / replace / remove through the closure API.
+                let remove = g.rng.chance(1, 4);
+                let value = g.vals(1);
+                ops.push(Op::Cmd { lane: "ctl".into(), body: ctl_recon(&Ctl::Xf { item, key, value, remove }) });
+            }
+            7..=8 => {
                 let n = *g.rng.pick(&[1i32, 2, 5]);
                 let start = g.vals(n);
                 let ctl = Ctl::Upd { item, key, start, n };
@@ -557,6 +571,18 @@ fn gen_op(g: &mut Gen, mix: &Mix, key_pool: i32, ops: &mut Vec<Op>, linked: &mut
                 let start = g.vals(n);
                 let item = if g.rng.chance(3, 4) { 2 } else { 3 };
                 ops.push(Op::Cmd { lane: "ctl".into(), body: ctl_recon(&Ctl::SetVal { item, start, n }) });
+                // The same bytes on a store and on a lane (item ids of lanes and stores are separate spaces that
+                // both start at 0): the lane's value must still be persisted and published in its own right.
+                if g.rng.chance(1, 3) {
+                    let lane_item = if g.rng.chance(3, 4) { 0 } else { 1 };
+                    let same = start + n - 1;
+                    if g.rng.chance(1, 2) {
+                        ops.push(Op::Cmd { lane: "ctl".into(), body: ctl_recon(&Ctl::SetVal { item: lane_item, start: same, n: 1 }) });
+                    } else {
+                        let lane = if lane_item == 0 { "val" } else { "tval" };
+                        ops.push(Op::Cmd { lane: lane.into(), body: same.to_string() });
+                    }
+                }
             }
             2 | 3 => {
                 let key = g.rng.range_i(0, key_pool as i64 - 1) as i32;
